@@ -236,6 +236,15 @@ pub fn encode_with_map(m: &RMsg) -> (Vec<u8>, Vec<Field>) {
     }
     (o.b, o.map)
 }
+/// the 16-byte storage header alone
+pub fn encode_storage(s: &RStorage) -> Vec<u8> {
+    let mut o = Out { b: vec![], be: true, map: vec![] };
+    o.raw(b"DLT\x01", Role::Pattern);
+    o.raw(&s.secs.to_le_bytes(), Role::StorageTime);
+    o.raw(&s.micros.to_le_bytes(), Role::StorageTime);
+    o.id(&s.ecu);
+    o.b
+}
 pub fn encode(m: &RMsg) -> Vec<u8> {
     encode_with_map(m).0
 }
